@@ -35,6 +35,7 @@ type pwPath struct {
 	ret       *ssa.Return       // the root function's return (nil for panic/loop)
 	results   []ssa.Value       // resolved return operands
 	end       string            // return | panic | loop
+	revisits  int               // number of times a block was entered again (loop back edges taken)
 	loopHead  *ssa.BasicBlock   // for end == loop: the header that was re-entered
 	loopFree  bool              // ... without any undecided branch since the previous arrival (the loop cannot end)
 	consts    map[ssa.Value]constant.Value
@@ -56,8 +57,62 @@ func (p *pwPath) addrKey(a ssa.Value) string {
 		return fmt.Sprintf("%p.%d", p.resolve(x.X), x.Field)
 	case *ssa.Alloc:
 		return fmt.Sprintf("%p", x)
+	case *ssa.IndexAddr:
+		// an element of a local array with a constant index (the backing array of a variadic call)
+		if c, ok := p.constOf(x.Index); ok && c.Kind() == constant.Int {
+			if base := p.addrKey(x.X); base != "" {
+				n, _ := constant.Int64Val(c)
+				return fmt.Sprintf("%s[%d]", base, n)
+			}
+		}
 	}
 	return ""
+}
+
+// sliceElems: v is a slice of a local array filled with constant-index stores
+// (what the compiler builds for a variadic call); returns the elements.
+func (p *pwPath) sliceElems(v ssa.Value) ([]ssa.Value, bool) {
+	sl, ok := p.resolve(v).(*ssa.Slice)
+	if !ok {
+		return nil, false
+	}
+	base := p.addrKey(sl.X)
+	if base == "" {
+		return nil, false
+	}
+	var out []ssa.Value
+	for i := 0; i < 64; i++ {
+		e, ok := p.stores[fmt.Sprintf("%s[%d]", base, i)]
+		if !ok {
+			break
+		}
+		out = append(out, e)
+	}
+	return out, true
+}
+
+// structField: field idx of the struct value v (a load of a tracked object, or a Field of one).
+func (p *pwPath) structField(v ssa.Value, idx int) (ssa.Value, bool) {
+	v = p.resolve(v)
+	for i := 0; i < 4; i++ {
+		switch x := v.(type) {
+		case *ssa.MakeInterface:
+			v = p.resolve(x.X)
+			continue
+		case *ssa.ChangeInterface:
+			v = p.resolve(x.X)
+			continue
+		}
+		break
+	}
+	if ld, ok := v.(*ssa.UnOp); ok && ld.Op == token.MUL {
+		if k := p.addrKey(ld.X); k != "" {
+			// a field stored after the last whole-object store is known even if the object came from elsewhere
+			fv, ok := p.stores[fmt.Sprintf("%s.%d", k, idx)]
+			return fv, ok
+		}
+	}
+	return nil, false
 }
 
 // fieldOfObj returns the value last stored on this path into field idx of the object obj.
@@ -101,7 +156,7 @@ type pathWalker struct {
 }
 
 func (p *pwPath) clone() *pwPath {
-	q := &pwPath{seed: p.seed, loadHook: p.loadHook}
+	q := &pwPath{seed: p.seed, loadHook: p.loadHook, revisits: p.revisits}
 	q.unknown = make(map[string]bool, len(p.unknown))
 	for k, v := range p.unknown {
 		q.unknown[k] = v
@@ -350,6 +405,7 @@ func (pw *pathWalker) run(s *pwState) []*pwState {
 			prevArr, seenBefore := s.arrived[b]
 			s.arrived[b] = len(s.p.decisions)
 			if s.visits[b] > 1 {
+				s.p.revisits++
 				s.p.loopHead = b
 				s.p.loopFree = seenBefore && prevArr == len(s.p.decisions)
 				// the block's values are computed afresh in the next iteration
@@ -429,6 +485,17 @@ func (pw *pathWalker) run(s *pwState) []*pwState {
 					v := s.p.resolve(x.Val)
 					s.p.mem[k] = v
 					s.p.stores[k] = v
+					// a store into a part of an object: the object as a whole is no longer what was stored into it before
+					switch a := s.p.resolve(x.Addr).(type) {
+					case *ssa.FieldAddr:
+						if bk := s.p.addrKey(a.X); bk != "" {
+							delete(s.p.mem, bk)
+						}
+					case *ssa.IndexAddr:
+						if bk := s.p.addrKey(a.X); bk != "" {
+							delete(s.p.mem, bk)
+						}
+					}
 					if st, ok := x.Val.Type().Underlying().(*types.Struct); ok {
 						// a whole struct is overwritten: its fields are those of the source object
 						src := ""
